@@ -15,17 +15,27 @@ theorem untouched_docs_nottl (now : Int) (c c' : Coll) (hn : c.ttlIndexes = [])
   · rw [he] at h1; cases h1; exact h
 
 def famWitnessColl : Coll :=
-  { docs := [(.int 1, .doc [("_id", .int 1), ("a", .int 1)])], forceCreated := true }
+  { docs := [(.int 1, .doc [("_id", .int 1), ("a", .arr [.int 1, .int 2])])], forceCreated := true }
 
-/-- `find_one_and_update(upsert=True, return_document=AFTER)` with a projection that mixes
-    inclusion and exclusion: the upsert is done, THEN the read-back raises ValueError -/
+/-- `find_one_and_update({_id: 1}, {$set: {a: 5}}, projection={a: {$slice: 1}},
+    return_document=AFTER)`: the projection is fine in itself and fine on the document as it is
+    (`a` is an array); the update turns `a` into a number, THEN the read-back raises
+    OperationFailure (`$slice` of a non-array) — known finding `fam-after-projection-on-result` -/
 def famWitnessOp : Val :=
-  .arr [.str "find_one_and_update", .doc [("_id", .int 7)], .doc [("$set", .doc [("a", .int 5)])],
-        .doc [("a", .int 1), ("b", .int 0)], .null, .bool true, .bool true]
+  .arr [.str "find_one_and_update", .doc [("_id", .int 1)], .doc [("$set", .doc [("a", .int 5)])],
+        .doc [("a", .doc [("$slice", .int 1)])], .null, .bool false, .bool true]
+
+/-- the `a` of the first stored document is the integer `n` -/
+def firstAIs (docs : List (Val × Val)) (n : Int) : Bool :=
+  match docs with
+  | (_, .doc fs) :: _ => (match dget "a" fs with | some (.int i) => i == n | _ => false)
+  | _ => false
 
 theorem fam_witness :
     famOp famWitnessOp = true ∧ (stepX {} 0 famWitnessColl famWitnessOp).2.isErr = true ∧
-    (stepX {} 0 famWitnessColl famWitnessOp).1.docs.length = 2 := by decide +kernel
+    firstAIs (stepX {} 0 famWitnessColl famWitnessOp).1.docs 5 = true ∧
+    firstAIs famWitnessColl.docs 5 = false ∧
+    projAcceptable (famProj famWitnessOp) = true := by decide +kernel
 
 theorem fam_failed_noop_full_fails :
     ¬ (∀ (cfg : Cfg) (now : Int) (c : Coll) (op : Val), c.Recorded → famOp op = true →
@@ -33,9 +43,31 @@ theorem fam_failed_noop_full_fails :
   intro h
   have hu := h {} 0 famWitnessColl famWitnessOp (fun _ => rfl) fam_witness.1 fam_witness.2.1
   have hd := untouched_docs_nottl 0 famWitnessColl _ rfl hu
-  have hl := fam_witness.2.2
-  rw [hd] at hl
-  exact absurd hl (by decide)
+  have hl := fam_witness.2.2.1
+  rw [hd, fam_witness.2.2.2.1] at hl
+  cases hl
+
+/-! ### the repaired finding `fam-after-projection-error` (library commit 7781c66)
+
+A projection that is refused whatever the document — here one mixing inclusion and exclusion — used
+to be met, on the upsert path, only by the read-back after the write: the call raised with the
+upsert done.  `_find_and_modify` now applies the projection to the empty document before it
+writes.  The former witness, kept as a regression example: the call raises and nothing is
+written. -/
+
+def famRepairedColl : Coll :=
+  { docs := [(.int 1, .doc [("_id", .int 1), ("a", .int 1)])], forceCreated := true }
+
+/-- `find_one_and_update({_id: 7}, {$set: {a: 5}}, projection={a: 1, b: 0}, upsert=True,
+    return_document=AFTER)` -/
+def famRepairedOp : Val :=
+  .arr [.str "find_one_and_update", .doc [("_id", .int 7)], .doc [("$set", .doc [("a", .int 5)])],
+        .doc [("a", .int 1), ("b", .int 0)], .null, .bool true, .bool true]
+
+theorem fam_repaired :
+    famOp famRepairedOp = true ∧ projAcceptable (famProj famRepairedOp) = false ∧
+    (stepX {} 0 famRepairedColl famRepairedOp).2.isErr = true ∧
+    (stepX {} 0 famRepairedColl famRepairedOp).1.docs == famRepairedColl.docs := by decide +kernel
 
 /-! ### `UpdateMany` inside a bulk: the documents updated before the failing one stay updated -/
 
@@ -45,12 +77,6 @@ def manyWitnessColl : Coll :=
 
 def manyWitnessReq : Val :=
   .arr [.str "UpdateMany", .doc [], .doc [("$inc", .doc [("a", .int 1)])], .bool false]
-
-/-- the `a` of the first stored document is the integer `n` -/
-def firstAIs (docs : List (Val × Val)) (n : Int) : Bool :=
-  match docs with
-  | (_, .doc fs) :: _ => (match dget "a" fs with | some (.int i) => i == n | _ => false)
-  | _ => false
 
 theorem many_witness :
     requestFailed (bulkOne {} 0 manyWitnessColl 0 manyWitnessReq).2 = true ∧
@@ -89,6 +115,8 @@ def granColl : Coll :=
 theorem witness_colls_recorded :
     famWitnessColl.Recorded ∧ manyWitnessColl.Recorded ∧ granColl.Recorded :=
   ⟨fun _ => rfl, fun _ => rfl, fun _ => rfl⟩
+
+theorem famRepairedColl_recorded : famRepairedColl.Recorded := fun _ => rfl
 
 theorem granColl_hyps : granColl.ttlIndexes = [] ∧ KeysDistinct granColl ∧ GoodKeys granColl := by
   refine ⟨rfl, ?_, goodKeys_of_scalar _ (by decide)⟩
